@@ -7,6 +7,7 @@ package main
 // (Proofs/Checked.lean, Props/C03.lean) are tied to exactly the code they are about.
 
 import (
+	"bytes"
 	"fmt"
 	"math/rand"
 	"strings"
@@ -201,6 +202,42 @@ func init() {
 				}
 				cases = append(cases, Case{Line: "parsefw " + hs(s), Impl: out, Desc: fmt.Sprintf("parseFW(%q)", s), Class: "fn-parseFW", Nontrivial: strings.HasPrefix(out, "ok")})
 			}
+		}
+		c.Compare(cases)
+	})
+}
+
+func init() {
+	registerExtra("C01", "function level (verif hook): sortProposals on 0..12 proposals built through fbb.NewProposal with titles carrying every precedence marker (//WL2K Z/, O/, P/, R/, none, several), payloads of equal and different compressed sizes and distinct MIDs, compared with the Lean sortProposals (the subject of sort_perm / sort_sorted).", func(c *Ctx) {
+		r := c.Rng
+		var cases []Case
+		titles := []string{"//WL2K Z/ flash", "//WL2K O/ immediate", "//WL2K P/ priority", "//WL2K R/ routine", "plain", "", "re: //WL2K P/ x", "//WL2K O/ and //WL2K Z/", "//wl2k z/ lower", "//WL2K Z/"}
+		payloads := [][]byte{[]byte("a"), []byte("b"), []byte("hello world"), bytes.Repeat([]byte("x"), 500), bytes.Repeat([]byte("xy"), 250), []byte("c")}
+		for i := 0; i < c.Budget(300, 5000); i++ {
+			n := r.Intn(13)
+			props := make([]*fbb.Proposal, n)
+			var toks []string
+			for j := range props {
+				mid := fmt.Sprintf("M%02d%c%04d", r.Intn(20), 'A'+byte(r.Intn(3)), j)
+				title := titles[r.Intn(len(titles))]
+				data := payloads[r.Intn(len(payloads))]
+				if r.Intn(3) == 0 {
+					data = make([]byte, r.Intn(300))
+					r.Read(data)
+				}
+				props[j] = fbb.NewProposal(mid, title, fbb.Wl2kProposal, data)
+				t := title
+				if t == "" {
+					t = "No title"
+				}
+				toks = append(toks, fmt.Sprintf("%s:%d:%s", hs(t), props[j].CompressedSize(), hs(mid)))
+			}
+			fbb.VerifSortProposals(props)
+			var out []string
+			for _, p := range props {
+				out = append(out, hs(p.MID()))
+			}
+			cases = append(cases, Case{Line: strings.TrimSpace("sortprops " + strings.Join(toks, " ")), Impl: strings.Join(out, " "), Desc: fmt.Sprintf("sortProposals of %d proposals", n), Class: "fn-sortProposals", Nontrivial: n >= 2})
 		}
 		c.Compare(cases)
 	})
